@@ -183,6 +183,7 @@ pub fn run(cfg: &Cfg) -> Report {
             symbols.push(x);
         }
     }
+    symbols.extend(gen::random_larger_2d_symbols(seed, cfg.tier.pick(5_000, 80_000), cfg.tier.pick(16, 30), &[1, 1, 1, 2, 2, 3, 4, 5, 6, 7, 10, 12, 15]));
     let all_perms: Vec<Vec<Vec<usize>>> = (0..=5).map(|n| if n == 0 { vec![] } else { gen::all_perms1(n) }).collect();
     let ctx = par_items(cfg, &symbols, |ctx, k, m| {
         let mut rng = Rng::stream(seed, 0x08_0000 + k as u64);
